@@ -57,6 +57,16 @@ func coreSchedSpecs(quick bool) []*EngSpec {
 			Threads: [][]Step{{C(L(1, 1, 2, 0, 10, 1, 0))}, {C(L(2, 1, 3, 0, 10, 1, 0))}}, Unlock: ul},
 		{Name: "reentrant-vs-other", Cfg: cfg, Fine: true,
 			Threads: [][]Step{{C(L(1, 1, 1, 0, 10, 0, 1)), C(L(2, 1, 1, 0, 10, 0, 1))}, {C(L(3, 1, 2, 0, 10, 0, 0))}}, Unlock: ul},
+		// a key that lives for one request only (expiry 0: granted and freed at once) is being reclaimed while two
+		// other requests for it arrive: on the all-zero key (a reclaimed key manager's key field is zeroed, so the
+		// "is this still my key" test cannot tell), and on a key that lives in the slow key table (its slot is owned
+		// by another key)
+		{Name: "short-lived-zero-key", Cfg: cfg, Fine: true,
+			Threads: [][]Step{{C(L(1, 0, 1, 0, 0, 0, 0))}, {C(L(2, 0, 2, 0, 10, 0, 0))}, {C(L(3, 0, 3, 0, 10, 0, 0))}}, Unlock: unlockAll([]byte{0}, []byte{1, 2, 3})},
+		{Name: "short-lived-slow-key", Cfg: cfg, Fine: true, Setup: []Step{C(L(9, 2, 9, 0, 10, 0, 0))},
+			Threads: [][]Step{{C(L(1, 1, 1, 0, 0, 0, 0))}, {C(L(2, 1, 2, 0, 10, 0, 0))}, {C(L(3, 1, 3, 0, 10, 0, 0))}}, Unlock: append(unlockAll([]byte{1}, []byte{1, 2, 3}), U(99, 2, 9))},
+		{Name: "short-lived-fast-key", Cfg: cfg, Fine: true,
+			Threads: [][]Step{{C(L(1, 1, 1, 0, 0, 0, 0))}, {C(L(2, 1, 2, 0, 10, 0, 0))}, {C(L(3, 1, 3, 0, 10, 0, 0))}}, Unlock: ul},
 	}
 	if !quick {
 		specs = append(specs,
